@@ -250,7 +250,9 @@ class Ctx:
 
         def run(item):
             k, fn = item
-            rc, out = sh(["coqc", "-Q", COQ, "Mammoth", "-w", "-notation-overridden", fn], timeout=timeout)
+            # large literals (a 100 kB image) overflow coqc's default stack
+            rc, out = sh("ulimit -s unlimited 2>/dev/null || ulimit -s 1000000 2>/dev/null; exec coqc -Q %s Mammoth -w -notation-overridden %s" % (COQ, fn),
+                         timeout=timeout)
             return k, fn, rc, out
 
         bad = []
